@@ -35,7 +35,7 @@ Domains: list of ["rg"|"un", n] (DomainTuple, C order) or dict key -> such a lis
 """
 import numpy as np
 
-KIND = {"f8": 1, "f4": 1, "pyfloat": 1, "c16": 2, "c8": 2, "pycomplex": 2, None: 0}
+KIND = {"f8": 1, "f4": 1, "pyfloat": 1, "c16": 2, "c8": 2, "pycomplex": 2, None: 0, "f8i": 1, "c16i": 2}
 SINGLE = ("f4", "c8")
 
 
